@@ -418,8 +418,12 @@ pub fn run(tier: Tier, seed: u64) -> Report {
     if rep.failed() {
         return rep;
     }
-    let r = engine::explore("C04", "crash", seed, tier.pick(64, 2500), || kcase(tier), check_crash);
+    let r = engine::explore("C04", "crash", seed, tier.pick(128, 2500), || kcase(tier), check_crash);
     rep.absorb("generated-histories", r);
+    if rep.failed() {
+        return rep;
+    }
+    kill_subrun(&mut rep, tier, seed);
     rep
 }
 
@@ -428,6 +432,7 @@ pub fn replay(kind: &str, case_json: &Value, st: &mut Stats) -> Option<CheckResu
     match kind {
         "crash" => Some(serde_json::from_value(case_json.clone()).map_err(bad).and_then(|c| check_crash(&c, st))),
         "file-fault" => Some(serde_json::from_value(case_json.clone()).map_err(bad).and_then(|c| check_file_fault(&c, st))),
+        "kill" => Some(serde_json::from_value(case_json.clone()).map_err(bad).and_then(|c| check_kill(&c, st))),
         _ => None,
     }
 }
@@ -688,6 +693,136 @@ pub fn run_file_level_faults(rep: &mut Report, tier: Tier, seed: u64) {
     if rep.failed() {
         return;
     }
-    let r = engine::explore("C05", "file-fault", seed, tier.pick(2500, 60_000), flcase, check_file_fault);
+    let r = engine::explore("C05", "file-fault", seed, tier.pick(8000, 60_000), flcase, check_file_fault);
     rep.absorb("file-faults-generated", r);
+}
+
+// ---------------------------------------------------------------------------------------------
+// C04 complement: the real executable is killed (SIGKILL) at generated moments during a
+// write-heavy exchange and restarted on the same directory.  Process-crash half only, at points
+// the operating system picks; sound, not complete.
+
+#[derive(Clone, Debug, Serialize, Deserialize, PartialEq, Eq, Hash)]
+pub struct KillCase {
+    /// milliseconds after the writers start at which the server is killed, one entry per round
+    pub kill_after_ms: Vec<u16>,
+    pub writers: u8,
+    pub payload_len: u32,
+    pub salt: u32,
+}
+
+fn start_server(bin: &std::path::Path, dir: &std::path::Path) -> Result<crate::props::binary::Proc, Fail> {
+    for _ in 0..4 {
+        let l = std::net::TcpListener::bind("127.0.0.1:0").map_err(|e| Fail::Inconclusive(format!("no loopback port: {e}")))?;
+        let port = l.local_addr().unwrap().port();
+        drop(l);
+        let launch = crate::props::binary::Launch {
+            args: vec!["--data-dir".into(), dir.to_string_lossy().into_owned(), "--listen".into(), format!("127.0.0.1:{port}")],
+            env: vec![],
+            connect: vec![format!("127.0.0.1:{port}").parse().unwrap()],
+        };
+        if let Ok(p) = crate::props::binary::spawn(bin, &launch) {
+            return Ok(p);
+        }
+    }
+    Err(Fail::Inconclusive("cannot start the server executable".into()))
+}
+
+pub fn check_kill(kc: &KillCase, st: &mut Stats) -> CheckResult {
+    use crate::sock::{exchange, Encoding};
+    use std::sync::atomic::{AtomicBool, Ordering};
+    use std::sync::{Arc, Mutex};
+    let Some(bin) = crate::props::binary::server_bin() else { return Err(Fail::Inconclusive("the server executable has not been built".into())) };
+    let dir = TempDir::new("c04k");
+    let n = (kc.writers % 4 + 1) as usize;
+    let clients: Vec<Uuid> = (0..n).map(|i| case::client_uuid(kc.salt, i as u8)).collect();
+    // per client: acknowledged (id, parent, payload) in order
+    let acked: Arc<Mutex<Vec<Vec<(Uuid, Uuid, Vec<u8>)>>>> = Arc::new(Mutex::new(vec![vec![]; n]));
+    let to = std::time::Duration::from_secs(20);
+    for (round, delay) in kc.kill_after_ms.iter().enumerate() {
+        let proc = start_server(&bin, dir.path())?;
+        let addr = proc.addrs[0];
+        // after a restart: everything acknowledged so far is served, in order
+        for (ci, c) in clients.iter().enumerate() {
+            let log = acked.lock().unwrap()[ci].clone();
+            let mut p = Uuid::nil();
+            for (i, (id, parent, data)) in log.iter().enumerate() {
+                let r = exchange(addr, &crate::driver::req_get_child(*c, p), Encoding::ContentLength, &[], to).map_err(|e| Fail::Inconclusive(format!("socket: {e:?}")))?;
+                match crate::driver::decode(crate::driver::Endpoint::GetChild, &r) {
+                    Outcome::Found { id: fid, parent: fp, data: fd } if fid == *id && fp == *parent && *fd == *data => p = fid,
+                    o => return v(format!("round {round}: after SIGKILL and restart, acknowledged version {i} of client #{ci} ({id}, {} bytes) is served as {}", data.len(), o.short())),
+                }
+            }
+            // at most one more version (a request in flight at the kill), completely applied
+            let r = exchange(addr, &crate::driver::req_get_child(*c, p), Encoding::ContentLength, &[], to).map_err(|e| Fail::Inconclusive(format!("socket: {e:?}")))?;
+            match crate::driver::decode(crate::driver::Endpoint::GetChild, &r) {
+                Outcome::NotFound => {}
+                Outcome::Found { id, parent, data } if parent == p => {
+                    // in flight at the kill and committed: adopt it
+                    acked.lock().unwrap()[ci].push((id, parent, (*data).clone()));
+                    st.label("c04:kill:in-flight-request-was-applied");
+                }
+                o => return v(format!("round {round}: after SIGKILL and restart, the end of client #{ci}'s chain answers {}", o.short())),
+            }
+            st.check();
+        }
+        // writers
+        let stop = Arc::new(AtomicBool::new(false));
+        let mut joins = vec![];
+        for (ci, c) in clients.iter().copied().enumerate() {
+            let stop = stop.clone();
+            let acked = acked.clone();
+            let len = kc.payload_len as usize;
+            let salt = kc.salt;
+            joins.push(std::thread::spawn(move || {
+                let mut k = 0u32;
+                while !stop.load(Ordering::Relaxed) {
+                    let parent = acked.lock().unwrap()[ci].last().map(|x| x.0).unwrap_or(Uuid::nil());
+                    let body = BytesSpec { len: len as u32 + k % 7, class: 2, seed: salt ^ (ci as u32 * 1000 + k) }.expand();
+                    k += 1;
+                    let req = crate::driver::req_add_version(c, parent, vec![bytes::Bytes::from(body.clone())]);
+                    match exchange(addr, &req, Encoding::ContentLength, &[], std::time::Duration::from_secs(5)) {
+                        Ok(r) => match crate::driver::decode(crate::driver::Endpoint::AddVersion, &r) {
+                            Outcome::Accepted { id, .. } => acked.lock().unwrap()[ci].push((id, parent, body.clone())),
+                            _ => break,
+                        },
+                        Err(_) => break, // the server is gone
+                    }
+                    if k % 5 == 0 {
+                        let latest = acked.lock().unwrap()[ci].last().map(|x| x.0).unwrap_or(Uuid::nil());
+                        let _ = exchange(addr, &crate::driver::req_add_snapshot(c, latest, vec![bytes::Bytes::from(body.clone())]), Encoding::ContentLength, &[], std::time::Duration::from_secs(5));
+                    }
+                }
+            }));
+        }
+        std::thread::sleep(std::time::Duration::from_millis(*delay as u64));
+        let mut proc = proc;
+        proc.kill9();
+        stop.store(true, Ordering::Relaxed);
+        for j in joins {
+            let _ = j.join();
+        }
+    }
+    let total: usize = acked.lock().unwrap().iter().map(|l| l.len()).sum();
+    st.label_n("c04:kill:versions-acknowledged", total as u64);
+    if total > 0 {
+        st.nontrivial(&("c04-kill", kc.kill_after_ms.clone(), n, kc.payload_len, total.min(50)));
+    }
+    Ok(())
+}
+
+fn killcase() -> BoxedStrategy<KillCase> {
+    (proptest::collection::vec(prop_oneof![3 => 1u16..40, 2 => 10u16..200], 2..5), 0u8..4, prop_oneof![3 => 10u32..300, 1 => 4000u32..40_000, 1 => 200_000u32..400_000], any::<u32>())
+        .prop_map(|(kill_after_ms, writers, payload_len, salt)| KillCase { kill_after_ms, writers, payload_len, salt: salt & 0xFFFF })
+        .boxed()
+}
+
+pub fn kill_subrun(rep: &mut Report, tier: Tier, seed: u64) {
+    let r = engine::replay_dir::<KillCase, _>("C04", "kill", check_kill);
+    rep.absorb("replay-tier-kill", r);
+    if rep.failed() {
+        return;
+    }
+    let r = engine::explore_n("C04", "kill", seed, tier.pick(24, 800), 8, killcase, check_kill);
+    rep.absorb("sigkill-real-executable", r);
 }
